@@ -361,3 +361,43 @@ func TestVerifC04KFPurgeLastSegment(t *testing.T) {
 	}
 	st.Sample("purge of the only segment, then append + current + Empty")
 }
+
+// TestVerifC04KFRefusedAppend: an append refused with ErrSegmentFull (block within 8 bytes of the segment size)
+// has already created a new empty tail segment; with nothing pending Empty() then reports false until the
+// next SendWrite trims the exhausted head.
+func TestVerifC04KFRefusedAppend(t *testing.T) {
+	st := verifkit.For("C04", "TestVerifC04KFRefusedAppend", "directed: refused over-sized append (len+8 > segment size) on a queue with 0-2 delivered blocks, then Empty(); non-trivial always")
+	defer st.Flush()
+	what := ""
+	for _, n := range []int{0, 1, 2} {
+		dir, _ := os.MkdirTemp("", "c04kfr")
+		q, _ := newQueue(dir, 1<<30, 16)
+		q.maxSegmentSize = 256
+		if err := q.Open(); err != nil {
+			t.Fatal(err)
+		}
+		vKFAppendN(t, q, 7, []int{30, 40}[:n], 1)
+		for i := 0; i < n; i++ {
+			q.Current()
+			q.Advance()
+		}
+		if !q.Empty() {
+			t.Fatalf("%s Empty() false on a drained queue", verifkit.Sig("empty-false-while-nothing-pending"))
+		}
+		err := q.Append(vRawBlk(9, 7, 250).Raw)
+		if err != ErrSegmentFull {
+			t.Fatalf("%s append of 250 bytes with segment size 256 returned %v", verifkit.Sig("oversized-block-accepted"), err)
+		}
+		broken := !q.Empty()
+		if broken && what == "" {
+			what = fmt.Sprintf("after %d delivered blocks an append of 250 bytes (segment size 256) is refused with ErrSegmentFull but leaves %d segments; Empty() is false with nothing pending until the next SendWrite", n, len(q.segments))
+		}
+		st.Case(true, fmt.Sprint("refused", n), fmt.Sprintf("refused-append:empty-false=%v", broken))
+		q.Close()
+		os.RemoveAll(dir)
+	}
+	st.Sample("refused over-sized append then Empty()")
+	if what != "" {
+		st.KnownReproduced(vSigRefusedSeg, what)
+	}
+}
